@@ -981,7 +981,7 @@ impl G<'_> {
             }
             4 => {
                 if float {
-                    let t = self.r.pick(&["1.5", "0.25", "10.", ".5", "2.5e3", "1E2"]);
+                    let t = self.r.pick(&["1.5", "0.25", "10.", ".5", "2.5e3", "1E2", "18446744073709551616", "99999999999999999999"]);
                     let pos = self.pos();
                     self.put(t);
                     self.p.marks.push(Mark::Float { pos, len: t.len(), bits: t.parse::<f64>().unwrap_or(0.0).to_bits() });
@@ -1235,9 +1235,12 @@ impl G<'_> {
         let n = self.r.below(4);
         for _ in 0..n {
             self.put(" ");
-            let t = match self.r.below(7) {
+            let t = match self.r.below(10) {
                 0 => "'a;b'",
                 1 => "\"c;d\"",
+                7 => "\"it's; x\"",
+                8 => "'say \"hi;\" now'",
+                9 => "\"don't\" 'a\"b'",
                 2 => "%let",
                 3 => "&x",
                 4 => "\n",
